@@ -44,12 +44,12 @@ def c11_overlay(tmpdir):
 SPEC = dict(
     id="C11", corr="Corr.C11", driver="h_c11", overlay=True, extra_overlay=c11_overlay,
     targets=["Properties/C11.vo", "Corr/C11.vo"],
-    args=lambda tier, seed: ["-seed", seed, "-n", 320 if tier == "quick" else 6000,
-                             "-big", 14 if tier == "quick" else 63],
-    search_args=lambda seed: ["-seed", seed, "-n", 1500, "-big", 20],
+    args=lambda tier, seed: ["-seed", seed, "-n", 320 if tier == "quick" else 4000,
+                             "-big", 14 if tier == "quick" else 63, "-conc", 8 if tier == "quick" else 120],
+    search_args=lambda seed: ["-seed", seed, "-n", 1500, "-big", 20, "-conc", 20],
     shard=28,
     patterns={},
-    rule="histories on one UDP socket of a real two-NIC stack: setup (bind wildcard / specific / v4-mapped, connect, bind+connect, unbound) then 4-25 operations: injected datagrams from 1-3 senders (payload lengths {0,1,7,8,9,1472,1473}, random <=300, <=3000, some <=9000; UDP length field consistent / smaller / larger than the IP payload / below 8; trailing bytes; IPv4, IPv6, IPv4 to a dual-stack socket; NIC 1 or 2; view splits: one view, fdbased buffer sizes, header+8, too short, random), reads, shutdowns, writes, ICMP errors, close, re-bind/connect; receive buffer limits {0,1,8,100,1472,1473,3000,9000,32768}; plus the send lattice: sizes {0,1,8,1472,1473,65506,65507,65508,65527,65528,65535,65536} x {IPv4, IPv6, v4-mapped} x {connected, bound, unbound} (a seeded sample of the sizes above 9000 in the quick tier, all of them in the thorough tier); a case is non-trivial when a datagram was delivered to Read or a frame was emitted; distinct = distinct case lines",
+    rule="histories on one UDP socket of a real two-NIC stack: setup (bind wildcard / specific / v4-mapped, connect, bind+connect, unbound) then 4-25 operations: injected datagrams from 1-3 senders (payload lengths {0,1,7,8,9,1472,1473}, random <=300, <=3000, some <=9000; UDP length field consistent / smaller / larger than the IP payload / below 8; trailing bytes; IPv4, IPv6, IPv4 to a dual-stack socket; NIC 1 or 2; view splits: one view, fdbased buffer sizes, header+8, too short, random), reads, shutdowns, writes, ICMP errors, close, re-bind/connect; receive buffer limits {0,1,8,100,1472,1473,3000,9000,32768}; plus the send lattice: sizes {0,1,8,1472,1473,65506,65507,65508,65527,65528,65535,65536} x {IPv4, IPv6, v4-mapped} x {connected, bound, unbound} (a seeded sample of the sizes above 9000 in the quick tier, all of them in the thorough tier); plus concurrent histories (CConc): one goroutine injects 20-70 datagrams while 2-3 goroutines call Read, the readers' results must interleave to exactly the accepted sequence; a case is non-trivial when a datagram was delivered to Read or a frame was emitted; distinct = distinct case lines",
     trusted_base=[KERNEL, CORR_TB, "Print Assumptions: every C11 theorem is closed under the global context (no axioms)",
                   "modelled, not verified: protocol/transport/udp/endpoint.go, protocol/header/udp.go (hand-written Gallina model Model/Udp.v with Model/HdrTransport.v and Model/Checksum.v, tied by the differential run)",
                   "inputs of the model taken from the run: which packets the demultiplexer delivers (Corr-level predicate `deliverable`), ports and routes chosen by the stack",
